@@ -108,7 +108,18 @@ def main() -> None:
             except BaseException as ex:  # noqa: BLE001
                 res["errors"].append(f"trace: {type(ex).__name__}: {str(ex)[:200]}")
     else:
+        judged = True
         try:
+            # a source JSON the library itself refuses (e.g. a Stately export without `states`) cannot be bound by
+            # anybody: the generated logic is not to blame, binding is not judged
+            create_machine(cfg, logic=fe.any_logic())
+        except BaseException as ex:  # noqa: BLE001
+            judged = False
+            res["bound"] = True
+            res["errors"].append(f"source config refused by create_machine ({type(ex).__name__}): binding not judged")
+        try:
+            if not judged:
+                raise StopIteration
             provider = None
             if template == "class-json":
                 # the runner instantiates the generated class and passes it as a logic provider
@@ -120,6 +131,8 @@ def main() -> None:
                  else create_machine(cfg, logic_modules=[logic_mod]))
             res["bound"] = True
             res["nf"] = fe.nf_lib(m)
+        except StopIteration:
+            pass
         except BaseException as ex:  # noqa: BLE001
             res["bound"] = False
             res["errors"].append(f"bind: {type(ex).__name__}: {str(ex)[:200]}")
